@@ -3,6 +3,8 @@ package c02
 import (
 	"fmt"
 	"math/big"
+	"os"
+	"syscall"
 	"testing"
 
 	"github.com/idena-network/idena-go/blockchain/fee"
@@ -14,7 +16,19 @@ import (
 	"verifharness/internal/sim"
 )
 
-func TestMain(m *testing.M) { evid.Main(m) }
+func TestMain(m *testing.M) {
+	// The WASM binaries bundled with the repository import the debug host function and instantiate only on nodes that run
+	// with the debug switch; with it the prebuilt runtime prints traces straight to file descriptor 1. The test's own
+	// output stays on the real stdout, descriptor 1 goes to /dev/null.
+	if fd, err := syscall.Dup(1); err == nil {
+		if null, err := os.OpenFile(os.DevNull, os.O_WRONLY, 0); err == nil {
+			if syscall.Dup2(int(null.Fd()), 1) == nil {
+				os.Stdout = os.NewFile(uintptr(fd), "stdout")
+			}
+		}
+	}
+	evid.Main(m)
+}
 
 // Every block built by an honest proposer is accepted by every honest
 // validator with the same head, is insertable, and all agree afterwards.
